@@ -259,6 +259,10 @@ fn point_code(p: &str) -> i64 {
         "take.add_permits" => 74,
         "take.detach" => 75,
         "return.surplus_permit" => 76,
+        "resize.lock" => 80,
+        "close.lock" => 81,
+        "status.lock" => 82,
+        "retain.lock" => 83,
         _ => 99,
     }
 }
@@ -366,6 +370,27 @@ impl World {
             o.extend(e);
         }
         self.ev_seen = evs.len();
+        o
+    }
+
+    /// everything the future behaviour depends on (used to prune the exhaustive exploration)
+    fn state_key(&self, script_pos: usize) -> Vec<i64> {
+        let mut o = vec![script_pos as i64, self.log.next_oid.load(Ordering::SeqCst) as i64];
+        let pool = if self.droppool_pending { None } else { self.pool.lock().unwrap().clone() };
+        if let Some(p) = pool {
+            let s = p.verif_snapshot();
+            o.extend([s.permits as i64, s.closed as i64, s.size as i64, s.max_size as i64, s.users as i64, s.debt as i64]);
+            p.verif_visit_idle(|ob, m| o.extend([ob.id as i64, m.recycle_count as i64]));
+        }
+        o.push(-1);
+        let st = self.sched.states();
+        for (t, y) in st.iter().enumerate() {
+            o.push(self.task_code(t, y));
+        }
+        o.push(-2);
+        for k in self.held.lock().unwrap().keys() {
+            o.push(*k as i64);
+        }
         o
     }
 
@@ -848,6 +873,94 @@ fn replay_trace(cfg: Cfg, labels: &[Vec<i64>]) -> TraceOut {
     out
 }
 
+// ---------------------------------------------------------------- bounded-exhaustive exploration
+/// All thread-level schedules of a small scripted scenario: the operations of `script` are
+/// started in order (at any time), every started task may take any enabled step, every gate may
+/// answer Ok or Err, every cancellable wait may be cancelled. The exploration is stateless (each
+/// prefix is re-executed on a fresh pool) and prunes prefixes that reach an already seen state.
+/// Prints one trace per explored edge.
+fn explore(cfg: &Cfg, script: &[Vec<i64>], max_depth: usize, max_edges: usize) -> usize {
+    use std::collections::HashSet;
+    let mut seen: HashSet<Vec<i64>> = HashSet::new();
+    let mut stack: Vec<Vec<Vec<i64>>> = vec![vec![]];
+    let mut edges = 0;
+    while let Some(prefix) = stack.pop() {
+        // re-execute the prefix
+        let mut w = World::new(cfg.clone());
+        let mut pos = 0;
+        for l in &prefix {
+            if l[0] == L_START {
+                pos += 1;
+            }
+            w.apply(l);
+        }
+        let key = w.state_key(pos);
+        let fresh = seen.insert(key);
+        let mut cands: Vec<Vec<i64>> = vec![];
+        if fresh && prefix.len() < max_depth {
+            for (t, y) in w.sched.states().iter().enumerate() {
+                let ti = t as i64;
+                match y {
+                    Yield::Done(_) => {}
+                    Yield::Start | Yield::Point(_) => cands.push(vec![L_STEP, ti, 0, 0, 0]),
+                    Yield::Gate { sync, .. } => {
+                        cands.push(vec![L_ENV, ti, 0, 0, 0]);
+                        cands.push(vec![L_ENV, ti, 1, 0, 0]);
+                        if !sync {
+                            cands.push(vec![L_CANCEL, ti, 0, 0, 0]);
+                        }
+                    }
+                    Yield::Sem => {
+                        cands.push(vec![L_STEP, ti, 0, 0, 0]);
+                        cands.push(vec![L_CANCEL, ti, 0, 0, 0]);
+                    }
+                }
+            }
+            if pos < script.len() {
+                let mut l = script[pos].clone();
+                l[1] = w.sched.ntasks() as i64;
+                if w.enabled(&l) {
+                    cands.push(l);
+                }
+            }
+        }
+        cleanup(w);
+        for c in cands {
+            let mut tr = prefix.clone();
+            tr.push(c);
+            // print the edge as a trace of its own
+            let t = replay_trace(cfg.clone(), &tr);
+            print_trace(edges, &t);
+            edges += 1;
+            if edges >= max_edges {
+                return edges;
+            }
+            stack.push(tr);
+        }
+    }
+    edges
+}
+
+fn scenarios() -> Vec<(Cfg, Vec<Vec<i64>>)> {
+    let c = |max: usize, lifo: bool, pre: Vec<bool>, post: Vec<bool>, pc: Vec<bool>| Cfg { max, lifo, pre, post, pc };
+    let get = |tk: i64| vec![L_START, 0, OP_GET, tk, 0];
+    let op = |k: i64, a: i64, b: i64| vec![L_START, 0, k, a, b];
+    vec![
+        // two getters on one slot, the first object is returned
+        (c(1, false, vec![], vec![], vec![]), vec![get(0), get(0), op(OP_DROP, 0, 0)]),
+        // return racing close, then a late get
+        (c(1, false, vec![], vec![], vec![]), vec![get(0), op(OP_DROP, 0, 0), op(OP_CLOSE, 0, 0), get(1)]),
+        // shrink while an object is out, return, get
+        (c(2, false, vec![], vec![], vec![]), vec![get(1), get(1), op(OP_RESIZE, 1, 0), op(OP_DROP, 0, 0), get(1)]),
+        // recycle with an async pre hook racing retain
+        (c(1, true, vec![true], vec![], vec![]), vec![get(0), op(OP_DROP, 0, 0), get(0), op(OP_RETAIN, 0, 1)]),
+        // take racing a waiting get and status
+        (c(1, false, vec![], vec![], vec![]), vec![get(0), get(0), op(OP_TAKE, 0, 0), op(OP_STATUS, 0, 0)]),
+        // grow wakes a waiter, shrink again
+        (c(1, false, vec![], vec![], vec![true]), vec![get(0), get(0), op(OP_RESIZE, 2, 0), op(OP_RESIZE, 0, 0)]),
+    ]
+}
+
 fn ints(v: &[i64]) -> String {
     let mut s = String::from("[");
     for (i, x) in v.iter().enumerate() {
@@ -945,6 +1058,16 @@ fn main() {
                 let t = gen_trace(&mut g);
                 print_trace(i, &t);
             }
+        }
+        Some("exh") => {
+            // exh <scenario index> <max depth> <max edges>
+            let k: usize = args[2].parse().unwrap();
+            let depth: usize = args[3].parse().unwrap();
+            let max_edges: usize = args[4].parse().unwrap();
+            let sc = scenarios();
+            let (cfg, script) = &sc[k % sc.len()];
+            let n = explore(cfg, script, depth, max_edges);
+            eprintln!("scenario {}: {} edges", k, n);
         }
         Some("replay") => {
             let text = std::fs::read_to_string(&args[2]).unwrap();
